@@ -2994,6 +2994,18 @@ func (p *Posix) PutObject(ctx context.Context, po s3response.PutObjectInput) (s3
 	}
 	verifhook.At("posix.putobject.bodywritten")
 
+	// a legal hold or a retention can only be asked for in a bucket with
+	// object lock: refuse before the replaced object is archived and before
+	// the first attribute of the new one is written (the sidecar store keeps
+	// attributes by name, a refusal after that would leave them on the
+	// object that stays stored)
+	if po.ObjectLockLegalHoldStatus == types.ObjectLockLegalHoldStatusOn || po.ObjectLockMode != "" {
+		err := p.isBucketObjectLockEnabled(*po.Bucket)
+		if err != nil {
+			return s3response.PutObjectOutput{}, err
+		}
+	}
+
 	// if the versioninng is enabled create the file object version of the
 	// object that is about to be replaced; only now that the new body has
 	// been received and verified, so that a refused upload leaves no copy
@@ -3126,20 +3138,12 @@ func (p *Posix) PutObject(ctx context.Context, po s3response.PutObjectInput) (s3
 		}
 	}
 	if po.ObjectLockLegalHoldStatus == types.ObjectLockLegalHoldStatusOn {
-		err := p.isBucketObjectLockEnabled(*po.Bucket)
-		if err != nil {
-			return s3response.PutObjectOutput{}, err
-		}
 		err = p.meta.StoreAttribute(f.File(), *po.Bucket, *po.Key, objectLegalHoldKey, []byte{1})
 		if err != nil {
 			return s3response.PutObjectOutput{}, fmt.Errorf("set object legal hold: %w", err)
 		}
 	}
 	if po.ObjectLockMode != "" {
-		err := p.isBucketObjectLockEnabled(*po.Bucket)
-		if err != nil {
-			return s3response.PutObjectOutput{}, err
-		}
 		retention := types.ObjectLockRetention{
 			Mode:            types.ObjectLockRetentionMode(po.ObjectLockMode),
 			RetainUntilDate: po.ObjectLockRetainUntilDate,
